@@ -108,6 +108,24 @@ theorem C18_throttle_value (v : Str) (n : Int) (h : parseThrottle v = .ok n) : i
     · cases h
   · cases h
 
+/-- **C18 (options of another mode are usage errors).** With exactly one path and no --help / --version / --credits,
+    a flag of the compatibility table that is present - whatever value it carries - in a mode outside its list makes
+    the outcome a usage error. -/
+theorem C18_incompatible (st : Scan) (path : Str) (hpos : st.pos = [path])
+    (hh : st.flags.has (S "--help") = false) (hv : st.flags.has (S "--version") = false)
+    (hc : st.flags.has (S "--credits") = false)
+    (p : Str × List Str) (hp : p ∈ PICKY) (hf : st.flags.has p.1 = true) (hm : p.2.contains (modeOf st.flags) = false) :
+    ∃ msg, finish st = .usage msg := by
+  unfold finish
+  simp only [hh, hv, hc, hpos, Bool.false_eq_true, if_false]
+  cases hfind : PICKY.find? (fun q => st.flags.has q.1 && !q.2.contains (modeOf st.flags)) with
+  | some q => exact ⟨_, rfl⟩
+  | none =>
+    have := List.find?_eq_none.mp hfind p hp
+    simp only [hf, Bool.true_and, Bool.not_eq_true', Bool.not_eq_false] at this
+    rw [hm] at this
+    cases this
+
 /-- non-vacuity: an unknown flag, and a path after the double dash -/
 example : parseArgs [S "--initx", S "x.hera"] = .usage (S "Unrecognized flag: --initx") := by decide
 example : (match parseArgs [S "--", S "-x.hera"] with | .ok st => st.path == S "-x.hera" | _ => false) = true := by decide
